@@ -352,12 +352,16 @@ def main(argv=None):
                      {"t": 0.0, "states": {"x": 1.7, "y": -0.6}, "params": {"p": -2.0}}),
                     ("states(x=1, y=2)\nparameters(p=1.5)\nk = Mod(abs(y), p) + Mod(y*y, -2.0) + Mod(exp(y), p) + Mod(abs(y) + 1.0, -p) + Mod(y, 2.0*p) + Mod(y + 7.0, p/3.0) + Mod(t + 5.0, 0.5*p*p)\ndx_dt = k - x\ndy_dt = Mod(x*x, p) - Mod(abs(x), 2.0) + Mod(x, p + 2.5) - y\n",
                      {"t": 0.0, "states": {"x": -2.3, "y": 1.1}, "params": {"p": 1.5}}),
+                    # exponentials of (quantity - large offset)/small scale: finite values that a rebuilt expression
+                    # (exp(1000.0/0.5)*exp(-2.0*t)) turns into inf*0
+                    ("states(x=1, y=2)\nparameters(p=1.5)\nk = exp(-(t - 1000.0)/0.5) + 1/(1 + exp(-(x + 20.0)/0.02)) + exp((y - 400.0)/0.25) + log(1 + exp((x + 20.0)/0.02)) + (exp(p*0.001) - 1)\ndx_dt = k - x\ndy_dt = -y\n",
+                     {"t": 1000.5, "states": {"x": -20.01, "y": 400.25}, "params": {"p": 1.5}}),
                     # constants for which sympy's C printer substitutes a math.h macro (M_PI_4, M_SQRT2, M_LN2, ...)
                     ("states(x=1, y=2)\nk = atan(1)*x + sqrt(2.0)*y + log(2.0) + 2.0/pi + exp(1.0)\nj = (abs(atan(1)) + 2.0)**(x/8) + sqrt(2)*x + log(2)*y + log(10) + 1/pi + pi/2 + exp(1)\n"
                      "dx_dt = k\ndy_dt = j\n", {"t": 0.0, "states": {"x": 0.5, "y": -1.7}, "params": {}})):
         cw = pipeline.Case(drv, wt)
         mw = textmodel.model_from_items(cw.captured)
-        core.guarded(rep, wt, check_model, rep, drv, FixedGen([wpt]), rng, mw, wt, cw, False)
+        core.guarded_witness(rep, wt, check_model, rep, drv, FixedGen([wpt]), rng, mw, wt, cw, False)
         rep.case(key=wt, nontrivial=True)
     for i in range(n):
         # literals: integer and floating ones mixed, so that integer quotients arise as they do in real models
